@@ -624,6 +624,32 @@ def sym_round(x, nd=None):
     return Sym(npoly.scale(1 / scale))
 
 
+def sym_trunc(x):
+    """int(x) = t with integer t, truncation toward zero: x >= 0 -> t <= x < t+1 ; x < 0 -> t-1 < x <= t (sign forked)"""
+    r = x.p.rational_value()
+    if r is not None:
+        import math
+        return math.trunc(r)
+    ctx = num.ctx()
+    tab = ctx.__dict__.setdefault("_truncs", {})
+    key = x.p.key()
+    if key in tab:
+        return Sym(Poly.var(tab[key]))
+    nonneg = bool(cons_truth(x.p.real(), ">="))
+    t = ctx.fresh("trunc", integer=True)
+    tab[key] = t
+    d = x.p.real().sub(Poly.var(t))                 # x - t
+    if nonneg:
+        ctx.defs.append(Cons(d, ">="))
+        ctx.defs.append(Cons(d.sub(Poly.const(F(1))), "<"))
+        ctx.defs.append(Cons(Poly.var(t), ">="))
+    else:
+        ctx.defs.append(Cons(d, "<="))
+        ctx.defs.append(Cons(d.add(Poly.const(F(1))), ">"))
+        ctx.defs.append(Cons(Poly.var(t), "<="))
+    return Sym(Poly.var(t))
+
+
 def sym_arccos(x):
     rule = num.ctx().__dict__.get("_arccos_rules", {}).get(x.p.key())
     if rule is not None:
